@@ -1,5 +1,5 @@
 (* C18 — property theorems.  Statements, `exact` proofs, non-vacuity examples and Print Assumptions only.
-   setter_table / get_setter / config_num / config_opaque / config_poling / steps2d_value / sweep_* are GENERATED from
+   setter_table / get_setter / config_num / config_opaque / config_poling / spdc_iter_* are GENERATED from
    src/spdc/spdc_iter.rs, src/beam/mod.rs, src/spdc/spdc_obj.rs, src/spdc/config/mod.rs, src/utils.rs on every run (Gen/Sweep.v);
    spec_table / si_of / config_key are the hand-pinned table of the 25 documented paths (Spec/SweepPaths.v); ideal_set is the
    hand-written "write this slot, touch nothing else" (Model/Sweep.v).  snell / csign are the two external kernels (Snell search,
@@ -61,16 +61,26 @@ Theorem C18_poling_period : forall snell csign,
        exists m, s_pp (f s v) = On m (csign (s_signal s) (s_pump s) (s_crystal_setup s)) ApOff /\ 0 < m /\ m = Rabs v * 1e-6).
 Proof. exact poling_all. Qed.
 
-(* sweep: nx * ny setups; linear index j * nx + i is (value i of the first parameter, value j of the second): first parameter fastest *)
+(* SPDCIter::try_new (generated): accepted iff both paths are documented; the first path's setter is the first component *)
+Theorem C18_try_new : forall snell csign spdc0 p1 p2,
+  spdc_iter_try_new snell csign spdc0 p1 p2 =
+  match get_setter snell csign p1, get_setter snell csign p2 with
+  | Some s1, Some s2 => Some (spdc0, (s1, s2))
+  | _, _ => None
+  end.
+Proof. exact try_new_spec. Qed.
+
+(* sweep (generated SPDCIter::into_iter over the generated Iterator2D): nx * ny setups; setup j * nx + i is the base with the FIRST
+   setter applied first at value i of the first axis, then the second setter at value j of the second axis (first parameter fastest) *)
 Theorem C18_order : forall base setter1 setter2 x0 x1 nx y0 y1 ny,
-  List.length (sweep_setups base setter1 setter2 (sweep_items x0 x1 nx y0 y1 ny)) = (nx * ny)%nat /\
+  List.length (spdc_iter_into_iter base setter1 setter2 x0 x1 nx y0 y1 ny) = (nx * ny)%nat /\
   (forall i j d, (i < nx)%nat -> (j < ny)%nat ->
-     nth (j * nx + i) (sweep_setups base setter1 setter2 (sweep_items x0 x1 nx y0 y1 ny)) d =
+     nth (j * nx + i) (spdc_iter_into_iter base setter1 setter2 x0 x1 nx y0 y1 ny) d =
      setter2 (setter1 base (axis_value x0 x1 nx i)) (axis_value y0 y1 ny j)) /\
   (forall k, (k < nx * ny)%nat -> exists i j, (i < nx)%nat /\ (j < ny)%nat /\ k = (j * nx + i)%nat).
 Proof.
   exact (fun base s1 s2 x0 x1 nx y0 y1 ny =>
-    conj (eq_trans (setups_length base s1 s2 _) (items_length x0 x1 nx y0 y1 ny))
+    conj (setups_length base s1 s2 x0 x1 nx y0 y1 ny)
       (conj (fun i j d Hi Hj => setups_nth base s1 s2 x0 x1 nx y0 y1 ny i j d Hi Hj) (index_decompose nx ny))).
 Qed.
 
@@ -80,11 +90,32 @@ Theorem C18_grid : forall a b n,
   (forall i, axis_value a b 1 i = a).
 Proof. exact (fun a b n => conj (axis_first a b n) (conj (axis_last a b n) (conj (fun i H => axis_step a b n i H) (axis_single a b)))). Qed.
 
-(* swept spectrum values = the kernel applied to the individually constructed setups, in order *)
-Theorem C18_values : forall (A : Type) (jsi : spdc -> A) setups,
-  List.length (sweep_values jsi setups) = List.length setups /\
-  forall k d d', (k < List.length setups)%nat -> nth k (sweep_values jsi setups) d' = jsi (nth k setups d).
-Proof. exact (fun A jsi setups => conj (values_length jsi setups) (fun k d d' H => values_nth jsi setups k d d' H)). Qed.
+(* swept spectrum values (generated SPDCIter::jsi_values; jsa2 = |jsa_raw|^2 and nrm = jsi_normalization are the spectrum kernels):
+   nx * ny values; value j * nx + i is the centre value of the individually constructed setup *)
+Theorem C18_values : forall base setter1 setter2 jsa2 nrm x0 x1 nx y0 y1 ny,
+  List.length (spdc_iter_jsi_values jsa2 nrm base setter1 setter2 x0 x1 nx y0 y1 ny) = (nx * ny)%nat /\
+  forall i j d, (i < nx)%nat -> (j < ny)%nat ->
+    nth (j * nx + i) (spdc_iter_jsi_values jsa2 nrm base setter1 setter2 x0 x1 nx y0 y1 ny) d =
+    centre_value jsa2 nrm (setter2 (setter1 base (axis_value x0 x1 nx i)) (axis_value y0 y1 ny j)).
+Proof.
+  exact (fun base s1 s2 jsa2 nrm x0 x1 nx y0 y1 ny =>
+    conj (values_length base s1 s2 jsa2 nrm x0 x1 nx y0 y1 ny)
+         (fun i j d Hi Hj => values_nth base s1 s2 jsa2 nrm x0 x1 nx y0 y1 ny i j d Hi Hj)).
+Qed.
+
+(* normalised sweep (generated SPDCIter::jsi_values_normalized; opt_of = SPDC::try_as_optimum as an oracle): it panics (None) iff the
+   base cannot be optimised; otherwise every value is the raw swept value divided by the reference at the optimised BASE's centre *)
+Theorem C18_values_normalized : forall base setter1 setter2 jsa2 nrm opt_of x0 x1 nx y0 y1 ny,
+  (opt_of base = None ->
+     spdc_iter_jsi_values_normalized jsa2 nrm opt_of base setter1 setter2 x0 x1 nx y0 y1 ny = None) /\
+  (forall opt, opt_of base = Some opt -> reference jsa2 nrm opt <> 0 ->
+     spdc_iter_jsi_values_normalized jsa2 nrm opt_of base setter1 setter2 x0 x1 nx y0 y1 ny =
+     Some (map (fun v => v / reference jsa2 nrm opt) (spdc_iter_jsi_values jsa2 nrm base setter1 setter2 x0 x1 nx y0 y1 ny))).
+Proof.
+  exact (fun base s1 s2 jsa2 nrm opt_of x0 x1 nx y0 y1 ny =>
+    conj (normalized_none base s1 s2 jsa2 nrm opt_of x0 x1 nx y0 y1 ny)
+         (fun opt H Hr => normalized_some base s1 s2 jsa2 nrm opt_of x0 x1 nx y0 y1 ny opt H Hr)).
+Qed.
 
 (* ---- non-vacuity ---- *)
 Example C18_nonvacuous_entry : In ("signal.wavelength_nm"%string, (SBeamWavelength BSignal, UNm)) spec_table /\
@@ -106,6 +137,8 @@ Print Assumptions C18_frame.
 Print Assumptions C18_value.
 Print Assumptions C18_poling_period.
 Print Assumptions C18_frequency_thz.
+Print Assumptions C18_try_new.
 Print Assumptions C18_order.
 Print Assumptions C18_grid.
 Print Assumptions C18_values.
+Print Assumptions C18_values_normalized.
